@@ -87,9 +87,10 @@ def aff_limit(x, level):
 
 @spec
 def limits_shared(cell):
-    """Instances of one affinity declare the same limits; finite limits are whole numbers."""
+    """Instances of one affinity declare the same limits; finite limits are whole numbers >= 0."""
     return (forall(lambda n, l: implies(n in cell.apps, cell.apps[n].affinity.limits[l] ==
-                                        aff_limit(cell.apps[n].affinity.name, l)), 'Name', 'Name'))
+                                        aff_limit(cell.apps[n].affinity.name, l)), 'Name', 'Name') and
+            forall(lambda x, l: aff_limit_inf(x, l) or aff_limit_val(x, l) >= 0, 'Name', 'Name'))
 
 
 @spec
